@@ -349,6 +349,43 @@ func (c *Ctx) ruleSharedReadOnly() {
 		})
 	}
 	c.floor("calls receiving a shared object", n, 20)
+	// annotation values are shared even when the struct was copied: a slice field of a copied annotation still
+	// points into the backing array owned by the analyzer result / imported fact
+	for _, fn := range P.ModFuncs {
+		if strings.HasSuffix(funcPkgPath(fn), "/src/annotations") {
+			continue
+		}
+		allInstrs(fn, func(b *ssa.BasicBlock, ins ssa.Instruction) {
+			st, ok := ins.(*ssa.Store)
+			if !ok {
+				return
+			}
+			ia, ok := st.Addr.(*ssa.IndexAddr)
+			if !ok {
+				return
+			}
+			owner := ""
+			isAnnotField := func(r ssa.Value) bool {
+				var base types.Type
+				switch x := r.(type) {
+				case *ssa.UnOp:
+					if fa, ok := x.X.(*ssa.FieldAddr); ok {
+						base = deref(fa.X.Type())
+					}
+				case *ssa.Field:
+					base = x.X.Type()
+				}
+				if nmd, ok := base.(*types.Named); ok && nmd.Obj().Pkg() != nil && strings.HasSuffix(nmd.Obj().Pkg().Path(), "/src/annotations") {
+					owner = typeStr(nmd)
+					return true
+				}
+				return false
+			}
+			if isAnnotField(ia.X) || isAnnotField(P.throughParams(ia.X)) || P.RootsAny(ia.X, isAnnotField) {
+				c.fail("SHARED-RO", FuncName(fn)+"#element-of-"+owner, P.Pos(st.Pos()), "an element of a slice that belongs to an annotation ("+owner+") is overwritten: the backing array is shared with the analyzer result / the imported fact of the declaring package, every other importer analysed in the same process sees the change, and concurrent analyses race on it")
+			}
+		})
+	}
 	// direct stores through shared parameters in checker packages
 	for _, fn := range P.ModFuncs {
 		pkgShort := strings.TrimPrefix(funcPkgPath(fn), modulePath+"/src/")
